@@ -204,14 +204,17 @@ type captureTB struct {
 
 type failNow struct{}
 
-func (c *captureTB) Helper()                   {}
-func (c *captureTB) Name() string              { return "simkit" }
-func (c *captureTB) Logf(f string, a ...any)   {}
-func (c *captureTB) Log(a ...any)              {}
-func (c *captureTB) Skipf(f string, a ...any)  { panic("skip") }
-func (c *captureTB) Skip(a ...any)             { panic("skip") }
-func (c *captureTB) SkipNow()                  { panic("skip") }
-func (c *captureTB) Errorf(f string, a ...any) { c.failed = true; c.msgs = append(c.msgs, fmt.Sprintf(f, a...)) }
+func (c *captureTB) Helper()                  {}
+func (c *captureTB) Name() string             { return "simkit" }
+func (c *captureTB) Logf(f string, a ...any)  {}
+func (c *captureTB) Log(a ...any)             {}
+func (c *captureTB) Skipf(f string, a ...any) { panic("skip") }
+func (c *captureTB) Skip(a ...any)            { panic("skip") }
+func (c *captureTB) SkipNow()                 { panic("skip") }
+func (c *captureTB) Errorf(f string, a ...any) {
+	c.failed = true
+	c.msgs = append(c.msgs, fmt.Sprintf(f, a...))
+}
 func (c *captureTB) Error(a ...any)            { c.failed = true; c.msgs = append(c.msgs, fmt.Sprint(a...)) }
 func (c *captureTB) Fatalf(f string, a ...any) { c.Errorf(f, a...); panic(failNow{}) }
 func (c *captureTB) Fatal(a ...any)            { c.Error(a...); panic(failNow{}) }
@@ -264,12 +267,30 @@ func normalisePanic(stack string) string {
 	return "harness"
 }
 
+// CapturedPanic carries a panic recovered elsewhere (e.g. inside a synctest
+// bubble) together with its original stack, to be re-raised on the exec goroutine.
+type CapturedPanic struct {
+	Val   any
+	Stack string
+}
+
+// Capture is called from a deferred recover: it wraps p with the current stack.
+func Capture(p any) *CapturedPanic {
+	if cp, ok := p.(*CapturedPanic); ok {
+		return cp
+	}
+	return &CapturedPanic{Val: p, Stack: string(debug.Stack())}
+}
+
 // ExecGuard runs Exec, converting a panic on the calling goroutine into a
 // violation with oracle "panic".
 func execGuard(t *testing.T, spec *Spec, plan any, r *Run) {
 	defer func() {
 		if p := recover(); p != nil {
 			st := string(debug.Stack())
+			if cp, ok := p.(*CapturedPanic); ok {
+				p, st = cp.Val, cp.Stack
+			}
 			where := normalisePanic(st)
 			if where == "harness" {
 				// A harness bug must never be reported as a violation.
